@@ -383,6 +383,11 @@ pub fn run_c12(ctx: &Ctx) -> i32 {
     } else {
         machinery_error("C12: the fourth contract was not created");
     }
+    // the admin asks for a new admin that is no address at all (a plain name, the empty string, an
+    // upper-cased spelling): the request fails and everything stays as it is
+    for bad in ["not-an-address".to_string(), String::new(), ad.poor.to_uppercase()] {
+        alphabet.push(Program { entry: Entry::User { sender: ad.rich.clone(), msg: Msg::UpdateAdmin { target: Target::Addr(ad.a.clone()), admin: bad.clone() } }, root: 0, nodes: vec![] });
+    }
     // the sender with the empty address (an address is a string; "no admin" must not compare equal to it)
     for t in [ad.c.clone(), ad.a.clone()] {
         alphabet.push(Program { entry: Entry::User { sender: String::new(), msg: Msg::UpdateAdmin { target: Target::Addr(t.clone()), admin: ad.poor.clone() } }, root: 0, nodes: vec![] });
